@@ -164,6 +164,53 @@ def swap2_queries(Query, tier):
                                 bounds=dict(size_max=cmax, capacity_max=cmax, impossible_exchange_reachable=impossible)))
     return qs
 
+SS_OPS = ['insert', 'lookup', 'erase_key', 'erase_it', 'erase_loop', 'clear', 'insert_range', 'node', 'copy_move', 'merge']
+SS_BIN = ['swap', 'compare']
+
+def ss_cfg(n=2, st=0, cmp=0, cls=0, cls2=None, lmax=None, keys=8):
+    c = {'SS_N': n, 'SS_SET': st, 'SS_CMP': cmp, 'SS_CLS': cls, 'SS_KEYS': keys, 'SS_LMAX': lmax if lmax is not None else n + 2}
+    if st == 0: c['SS_STUBSORT'] = ''     # FlatSet's bulk insert (SmallSet::grow) through the sort/inplace_merge contract stubs
+    if cls2 is not None: c['SS_CLS2'] = cls2
+    return c
+
+def ss_name(c):
+    return 'n%d_%s_%s_%s%s_l%d%s' % (c['SS_N'], ['flat', 'stdset'][c['SS_SET']], ['less', 'greater'][c['SS_CMP']], 'IL'[c['SS_CLS']],
+                                    'IL'[c['SS_CLS2']] if 'SS_CLS2' in c else '', c['SS_LMAX'], '_f%d' % c['SS_FORM'] if 'SS_FORM' in c else '')
+
+def ss_queries(Query, ops, cfgs, timeout=600, mem_gb=6):
+    qs = []
+    for c in cfgs:
+        for op in ops:
+            opt = (2,)
+            node_bytes = 48 if c['SS_SET'] else 16
+            qs.append(Query('ss_%s.%s' % (op, ss_name(c)), 'smallset_ops.cpp', 'h_' + op, defs=c, arena=(6 if c['SS_SET'] else 4, node_bytes), unwind=c['SS_LMAX'] + 6, timeout=timeout, mem_gb=mem_gb,
+                            optional_reach=opt, symbolic='state (inline: any order of pairwise inequivalent keys; large: sorted keys), key, position, range',
+                            bounds=dict(N=c['SS_N'], large_max=c['SS_LMAX'], key_domain=c['SS_KEYS'], backing=['FlatSet', 'std::set (red-black primitives stubbed)'][c['SS_SET']])))
+    return qs
+
+def smallset_plan(Query, pid, tier):
+    quick = tier == 'quick'
+    def forms(cfgs, n):
+        out = []
+        for c in cfgs:
+            for f in range(n):
+                d = dict(c); d['SS_FORM'] = f; out.append(d)
+        return out
+    flat = [ss_cfg(2, 0, 0, 0), ss_cfg(2, 0, 0, 1)]
+    if not quick: flat += [ss_cfg(3, 0, 1, 0), ss_cfg(3, 0, 1, 1), ss_cfg(1, 0, 0, 0), ss_cfg(1, 0, 0, 1)]
+    std = [ss_cfg(1, 1, 0, 0, lmax=2), ss_cfg(1, 1, 0, 1, lmax=2)]
+    if not quick: std += [ss_cfg(2, 1, 0, 0, lmax=3)]
+    simple = ['lookup', 'erase_key', 'erase_it', 'erase_loop', 'clear'] + (['copy_move'] if pid == 'C04' else [])
+    q = ss_queries(Query, simple, flat)
+    q += ss_queries(Query, ['insert'], forms(flat, 4), timeout=900, mem_gb=8)
+    if pid == 'C04':
+        q += ss_queries(Query, ['node'], forms(flat[:2], 4), timeout=900, mem_gb=8)
+        q += ss_queries(Query, SS_BIN, [ss_cfg(2, 0, 0, a, b) for a in (0, 1) for b in (0, 1)])
+        if not quick: q += ss_queries(Query, ['insert_range', 'merge'], flat[:2], timeout=1800, mem_gb=12)
+    q += ss_queries(Query, ['lookup', 'erase_key', 'erase_it', 'erase_loop', 'clear'], std, timeout=900, mem_gb=10)
+    q += ss_queries(Query, ['insert'], forms(std, 4) if not quick else forms(std, 1), timeout=900, mem_gb=10)
+    return q
+
 def flatset_plan(Query, pid, tier):
     quick = tier == 'quick'
     ST = [(0, 0), (1, 0), (0, 1), (1, 1)]      # (direction, coarseness) of the stateful comparator
@@ -185,7 +232,7 @@ def flatset_plan(Query, pid, tier):
         q += fs_queries(Query, ['insert_range'], [fs_cfg(0, cmp=2, d=1, sh=1, stub=True, mx=2, cls=1), fs_cfg(1, cmp=0, stub=True, mx=2, cls=0)] +
                         ([] if quick else [fs_cfg(0, cmp=2, d=0, sh=1, stub=True, mx=2, cls=1, il=True), fs_cfg(2, n=8, cmp=1, stub=True, mx=3)]), timeout=900, mem_gb=8)
         q += fs_queries(Query, ['merge_same'], [fs_cfg(0, cmp=2, d=1, sh=1, mx=1, cls=1), fs_cfg(1, cmp=0, mx=1, cls=0)], timeout=900, mem_gb=10)
-        q += fs_queries(Query, ['ctor_range', 'from_vector'], [fs_cfg(0, cmp=2, d=1, sh=1, stub=True, mx=1, rng=1, cls=1), fs_cfg(1, cmp=0, stub=True, mx=1, rng=1, cls=0)], timeout=900, mem_gb=8)
+        q += fs_queries(Query, ['ctor_range', 'from_vector'], [fs_cfg(1, cmp=0, stub=True, mx=2, rng=1, cls=0)] + ([] if quick else [fs_cfg(0, cmp=2, d=1, sh=1, stub=True, mx=1, rng=1, cls=1)]), timeout=900, mem_gb=10)
         return q
     if pid == 'C19':
         q = fs_queries(Query, ['lookup', 'insert', 'emplace', 'erase_key'], base, timeout=600)
@@ -264,6 +311,8 @@ def plan(pid, tier, Query):
         return (fs_queries(Query, ['insert_hint'], [fs_cfg(1, cmp=0, mx=3, form=f) for f in (0, 1, 2)] + [fs_cfg(0, cmp=2, d=1, sh=1, mx=3, form=0, cls=1)]) +
                 fs_queries(Query, ['merge_same'], [fs_cfg(0, cmp=2, d=1, sh=1, mx=2), fs_cfg(1, cmp=0, mx=2, cls=0)], mem_gb=10) +
                 fs_queries(Query, FS_OPS_SORT, [fs_cfg(0, cmp=2, d=1, sh=1, stub=True, mx=2, cls=1), fs_cfg(1, cmp=0, stub=True, mx=2, cls=0), fs_cfg(1, cmp=0, mx=1, rng=1, cls=0)], mem_gb=8))
+    if pid in ('C04', 'C11'):
+        return smallset_plan(Query, pid, tier)
     if pid in ('C03', 'C12', 'C19'):
         return flatset_plan(Query, pid, tier)
     if pid in ('C01', 'C02', 'C05', 'C06', 'C07'):
